@@ -34,6 +34,21 @@ func isPrivateHelper(f *ssa.Function) bool {
 	return true
 }
 
+// unitExclude lists functions that are never entered by the unit-aware primitives: the
+// helpers a rule set knows by role and checks separately (e.g. the ring's grow/available
+// helpers, the NAT's lookup helpers). Every other private helper - in particular one
+// created by a refactoring - is treated as part of its caller.
+var unitExclude = map[*ssa.Function]bool{}
+
+func setUnitExclude(fs ...*ssa.Function) {
+	unitExclude = map[*ssa.Function]bool{}
+	for _, f := range fs {
+		if f != nil {
+			unitExclude[f] = true
+		}
+	}
+}
+
 // helperCallee returns the private helper a plain call instruction invokes, or nil.
 func helperCallee(in ssa.Instruction) *ssa.Function {
 	c, ok := in.(*ssa.Call)
@@ -41,7 +56,7 @@ func helperCallee(in ssa.Instruction) *ssa.Function {
 		return nil
 	}
 	sc := c.Call.StaticCallee()
-	if sc == nil || !isPrivateHelper(sc) {
+	if sc == nil || unitExclude[sc] || !isPrivateHelper(sc) {
 		return nil
 	}
 	return sc
@@ -464,4 +479,113 @@ func enumPathsU(f *ssa.Function, limit int) ([]upath, bool) {
 	}
 	run(entryPos(f), map[*ssa.BasicBlock]bool{}, nil)
 	return out, ok
+}
+
+// enumPathsB adapts enumPathsU to the block-path interface used by the helper-shape
+// rules (functions without inlined helpers keep their block structure).
+func enumPathsB(f *ssa.Function, limit int) ([]cfgPath, bool) {
+	return enumPaths(f, limit)
+}
+
+// resolveParam maps a parameter of a private helper that has exactly one call site to
+// the argument passed there (transitively); other values are returned unchanged.
+func resolveParam(v ssa.Value) ssa.Value {
+	for i := 0; i < unitDepth; i++ {
+		p, ok := v.(*ssa.Parameter)
+		if !ok {
+			return v
+		}
+		fn := p.Parent()
+		if !isPrivateHelper(fn) || unitExclude[fn] || len(curSites.sites[fn]) != 1 {
+			return v
+		}
+		call, ok := curSites.sites[fn][0].(*ssa.Call)
+		if !ok {
+			return v
+		}
+		idx := -1
+		for k, q := range fn.Params {
+			if q == p {
+				idx = k
+			}
+		}
+		if idx < 0 || idx >= len(call.Call.Args) {
+			return v
+		}
+		v = call.Call.Args[idx]
+	}
+	return v
+}
+
+// sameVal: identity of values up to helper-parameter binding.
+func sameVal(a, b ssa.Value) bool {
+	return a == b || resolveParam(a) == resolveParam(b)
+}
+
+// commsOfU lists the channel communications of the unit of f.
+func commsOfU(f *ssa.Function) []selCase {
+	var out []selCase
+	for _, g := range unitOf(f) {
+		out = append(out, commsOf(g)...)
+	}
+	return out
+}
+
+// rootEvents returns the instructions of f itself (not of its helpers) that perform the
+// event directly or are calls of a private helper that performs it on every path.
+func rootEvents(p *Prog, f *ssa.Function, pred func(ssa.Instruction) bool) []ssa.Instruction {
+	lifted := mustDo(p, pred)
+	return findInstrs(f, lifted)
+}
+
+// unitRoots: the non-helper functions from which a (possibly helper) function is reached
+// through plain calls of private helpers.
+func unitRoots(f *ssa.Function) []*ssa.Function {
+	seen := map[*ssa.Function]bool{}
+	var out []*ssa.Function
+	var rec func(g *ssa.Function, d int)
+	rec = func(g *ssa.Function, d int) {
+		if seen[g] {
+			return
+		}
+		seen[g] = true
+		if d > unitDepth || !isPrivateHelper(g) || unitExclude[g] {
+			out = append(out, g)
+			return
+		}
+		for _, s := range curSites.sites[g] {
+			rec(s.Parent(), d+1)
+		}
+	}
+	rec(f, 0)
+	return out
+}
+
+// isIn: every root of f's unit membership is role (f is role itself, or a private helper
+// reached only from role).
+func isIn(f, role *ssa.Function) bool {
+	if role == nil {
+		return false
+	}
+	rs := unitRoots(f)
+	if len(rs) == 0 {
+		return false
+	}
+	for _, r := range rs {
+		if r != role {
+			return false
+		}
+	}
+	return true
+}
+
+func debugHelper(f *ssa.Function) string {
+	obj, _ := f.Object().(*types.Func)
+	return fmt.Sprintf("%s: parent=%v blocks=%d inModule=%v obj=%v exported=%v addrTaken=%v sites=%d iface=%v excl=%v", fname(f), f.Parent() != nil, len(f.Blocks), inModule(f), obj != nil, obj != nil && obj.Exported(), curSites.addrTaken[f], len(curSites.sites[f]), curSites.iface[f], unitExclude[f])
+}
+
+func forEach(ins []ssa.Instruction, f func(ssa.Instruction)) {
+	for _, in := range ins {
+		f(in)
+	}
 }
